@@ -16,7 +16,10 @@ test, or the identity matrix.
 """
 import numpy as np
 
-from mc import ScopeUnit, FAILED
+import json
+
+from mc import ScopeUnit, HistoryUnit, FAILED
+from mc import ref_dft
 from mc.linalg import dense, deltas
 from mc.state import reset_executors
 
@@ -376,6 +379,75 @@ def run_near_square(case, seed, R):
 
 
 # ---------------------------------------------------------------------------------------------
+# histories on the SHARED executors: one physical field in arrays of different size, one after the other, nothing cleared
+
+HIST_UNITS = [[0.5, 100.0, 0.1], [0.6328, 123.0, 0.1]]
+
+
+class EmbHist:
+    def __init__(self, init, seed):
+        self.trace = []
+        self.results = []          # (event, output array or FAILED)
+        b = init['base']
+        self.f = dense((b, b), seed, 41)
+
+
+def he_fresh(init, seed):
+    reset_executors(64)
+    return EmbHist(init, seed)
+
+
+def he_events(init, hist, st):
+    return [[shape, method, fwd] for shape in init['shapes'] for method in ('mdft', 'czt') for fwd in (1, 0)]
+
+
+def he_apply(st, ev, R, init=None):
+    st.trace = st.trace + [ev]
+    st.pending = ev
+    return st
+
+
+def _he_run(st, init, ev, R):
+    shape, method, fwd = tuple(ev[0]), ev[1], bool(ev[2])
+    wvl, efl, dxi = HIST_UNITS[init['units']]
+    M = init['M']
+    dxo = wvl * efl / (dxi * init['band'])
+    fn = propagation.focus_fixed_sampling if fwd else propagation.unfocus_fixed_sampling
+    a = embed(st.f, shape)
+    return R.call(fn, a, dxi, efl, wvl, dxo, M, method=method, sig=f'history:{fn.__name__}:{method}:exception')
+
+
+def he_check(st, init, hist, R):
+    # the explorer replays histories through apply(); the calls are made here, in order, so that every event of the
+    # history runs on the shared executors exactly once per replay
+    if not hist:
+        return
+    outs = []
+    for ev in hist:
+        outs.append(_he_run(st, init, ev, R))
+    ev, got = hist[-1], outs[-1]
+    if got is FAILED:
+        return
+    shape, method, fwd = tuple(ev[0]), ev[1], bool(ev[2])
+    M, b, P = init['M'], init['base'], init['band']
+    name = 'focus_fixed_sampling' if fwd else 'unfocus_fixed_sampling'
+    after = f'after {hist[:-1]}' if len(hist) > 1 else 'in a fresh state'
+    ref = ref_dft.dft2(st.f, (P / b, P / b), (M, M), (0, 0), fwd)
+    scale = max(1.0, float(np.abs(ref).max()))
+    tol = 200 * EPS * max(max(shape), M) ** 1.5 * scale
+    R.expect_close(got, ref, tol, f'history:{name}:{method}:textbook', f'{name}({method}) of the {b}x{b} field embedded in {shape} -> {M}x{M} vs the textbook sum {after}')
+    for e0, o0 in zip(hist[:-1], outs[:-1]):
+        if o0 is not FAILED and bool(e0[2]) == fwd and np.shape(o0) == np.shape(got):
+            R.expect_close(got, np.asarray(o0), tol, f'history:{name}:{method}:embedding', f'the same physical field in {tuple(e0[0])} ({e0[1]}) and then in {shape} ({method}) gives different fields')
+    R.nontrivial(len(hist) > 1)
+    R.outcome(f'hist:{method}')
+
+
+def he_canon(st):
+    return json.dumps(st.trace)
+
+
+# ---------------------------------------------------------------------------------------------
 
 EMB_OUT = [[3, 3], [4, 5], [6, 2]]
 EMB_BAND = [[4.0, 0], [7.3, 1], [12.0, 0]]          # (n_axis * Q_axis, unit set)
@@ -400,6 +472,9 @@ def plan(tier, seed):
     sf_cases = [{'n': n, 'out': S, 'band': P, 'shift_units': su}
                 for n in ([3, 3], [2, 4], [5, 3]) for S in ([4, 4], [3, 5])
                 for (P, su) in ((4.0, [125, -250]), (4.0, [0, 62.5]), (7.3, [34.25, 85.6]), (7.3, [-68, 0]))]
+    fams = [(16, 14), (32, 30), (64, 62)] if tier == 'quick' else [(16, 14), (24, 23), (32, 30), (64, 62), (128, 126)]
+    he_inits = [{'M': M, 'base': b, 'band': float(M), 'units': u,
+                 'shapes': [[b, b], [b + 1, b + 1], [M, M], [b, M], [M, b + 1]]} for (M, b) in fams for u in (0, 1)]
     ns_shapes = [[40, 41], [100, 101], [400, 401], [1000, 1001], [1200, 1201], [1201, 1200]] + \
         ([] if tier == 'quick' else [[200, 201], [512, 513], [1024, 1025], [1500, 1501], [1999, 2000], [2048, 2049], [2049, 2048]])
     ns_cases = [{'N': N, 'out': S, 'band': P, 'units': u, 'shift': sh} for N in sorted(ns_shapes)
@@ -417,6 +492,10 @@ def plan(tier, seed):
         ScopeUnit('babinet', bab_cases, run_babinet,
                   f'every pupil shape in [1..{nmax}]^2 x every mask shape in [1..{mmax}]^2 (equal / smaller / larger / mixed) x fpm_dx from bands {{5, 8.6}} x {{real, complex}} seeded dense mask x {{mdft, czt}} x mask shift {{(0,0), (0.5,-1)}}: '
                   'operator matrices T(mask) + T(1-mask) = T(ones); T linear in the field; Wavefront.babinet(lyot in {None, real, complex}, fpm) operator equals diag(lyot)(I - T(1-fpm)); return_more planes', reset=rs),
+        HistoryUnit('embedding_history', he_inits, he_fresh, he_events, he_apply, he_check, he_canon, 2,
+                    'for each family (output M, input lengths that round to the same fast FFT length: 14,15,16 -> 16; 30,31,32 -> 32; 62,63,64 -> 64; square and two non-square members) x 2 unit sets: every history of length <= 2 over '
+                    '(array shape, method in {mdft, czt}, direction) on the SHARED module-level executors with no clear() in between; one seeded dense physical field of the smallest size is embedded (by the harness) in each array; '
+                    'in every state the last result must equal the textbook sum of the unpadded field and every earlier result of the same direction (embedding invariance in both orders: small then padded, padded then small, across methods)'),
         ScopeUnit('shift_forms', sf_cases, run_shift_forms,
                   'argument-form alphabet of the shift: pupils (3,3),(2,4),(5,3) x outputs (4,4),(3,5) x 4 physical shifts (integral and fractional, one axis zero) x {mdft, czt} x '
                   '{focus_fixed_sampling, unfocus_fixed_sampling, to_fpm_and_back, Wavefront.focus_fixed_sampling, Wavefront.to_fpm_and_back}: the shift given as tuple of numpy scalars / list / float64 ndarray / '
